@@ -187,6 +187,9 @@ def pctResult (q : Int) (found count : Nat) : Int :=
   if isU q || count == 0 then C.UNDEF
   else C.b2i (decide ((Float.ofNat found / Float.ofNat count) * 100 ≥ Float.ofInt q))
 
+/-- OP_ITER_CONDITION first normalises the body's value: every defined non-zero value counts exactly once -/
+def normW (r : Int) : Int := if isU r then r else C.b2i (r != 0)
+
 /-- OP_ITER_CONDITION: should the loop go on? (`q` quantifier word, `t` true-count so far, `r` body result) -/
 def contWord (q t r : Int) : Bool :=
   if isU q then r != 0 else if q == 0 then r != 1 else decide (C.add t r < q)
@@ -198,7 +201,10 @@ def endWord (q t n : Int) : Int :=
 /-- the `next` function of an iterator (iter_int_range_next / iter_int_enum_next / iter_string_set_next /
     iter_text_string_set_next): the word it yields and the advanced iterator, or `none` when exhausted -/
 def iterAdvance : Iter → Option (Int × Iter)
-  | .range nx last => if !isU nx && !isU last && nx ≤ last then some (nx, .range (C.add nx 1) last) else none
+  | .range nx last =>
+    -- `next` is not stepped past INT64_MAX: an undefined `next` marks the iterator as exhausted
+    if !isU nx && !isU last && nx ≤ last then some (nx, .range (if nx == C.INT64_MAX then C.UNDEF else C.add nx 1) last)
+    else none
   | .list items k =>
     match items[k]? with
     | some v => some (v, .list items (k + 1))
@@ -299,7 +305,7 @@ def step (env : Env) (i : Instr) (s : St) : Option St :=
         | none => next (C.UNDEF :: 1 :: it :: st)
       | none => none
   | .iterCondition, q :: t :: r :: st =>
-      next (r :: C.b2i (contWord q t r) :: st)
+      next (normW r :: C.b2i (contWord q t (normW r)) :: st)
   | .iterEnd, q :: t :: n :: st =>
       next (endWord q t n :: st)
   | _, _ => none
